@@ -45,6 +45,7 @@ import (
 	"math/big"
 	"math/bits"
 	"os"
+	"os/exec"
 	"path/filepath"
 	"sort"
 	"strconv"
@@ -216,12 +217,49 @@ type loadSpec struct {
 	PEM     []byte   `json:"pem"`              // the input text (JSON: base64)
 	Source  string   `json:"source,omitempty"` // "" data | nil-reader | failing-reader | missing-file
 	Reuse   []byte   `json:"reuse,omitempty"`  // loaded (defaults) into the same Key object first
+	// what happened in the process before this load: keys loaded with the defaults into OTHER Key
+	// variables whose hash algorithm list was then written in place (a caller may do that with its own key)
+	History []histStep `json:"history,omitempty"`
 	// bulk data around the PEM text, generated at run time from (kind, size) so that case files stay small:
 	// kind "ws" = white space, "text" = comment lines (ends with a newline), "data" = arbitrary trailing lines
 	LeadKind  string `json:"lead_kind,omitempty"`
 	LeadN     int    `json:"lead_n,omitempty"`
 	TrailKind string `json:"trail_kind,omitempty"`
 	TrailN    int    `json:"trail_n,omitempty"`
+}
+
+type histStep struct {
+	PEM []byte `json:"pem"`
+	Mut string `json:"mut"` // index-write | sort-reverse | json-unmarshal | append-in-place | none
+}
+
+// applies one history step; returns the slice headers it wrote through (restored by the caller,
+// so that a tree that shares the default list between keys does not poison the rest of the run)
+func (h histStep) run() [][]string {
+	var a intoto.Key
+	if err := a.LoadKeyReaderDefaults(bytes.NewReader(h.PEM)); err != nil {
+		panic("history load failed: " + err.Error())
+	}
+	orig := a.KeyIDHashAlgorithms
+	switch h.Mut {
+	case "index-write":
+		if len(a.KeyIDHashAlgorithms) > 0 {
+			a.KeyIDHashAlgorithms[0] = "sha512"
+		}
+	case "sort-reverse":
+		sort.Sort(sort.Reverse(sort.StringSlice(a.KeyIDHashAlgorithms)))
+	case "json-unmarshal":
+		// another key document decoded into the same variable: encoding/json re-uses the slice
+		doc := `{"keyid":"00","keyid_hash_algorithms":["md5","sha1"],"keytype":"ed25519","keyval":{"public":"00"},"scheme":"ed25519"}`
+		if err := json.Unmarshal([]byte(doc), &a); err != nil {
+			panic(err)
+		}
+	case "append-in-place":
+		if len(a.KeyIDHashAlgorithms) > 1 {
+			a.KeyIDHashAlgorithms = append(a.KeyIDHashAlgorithms[:1], "sha3-256")
+		}
+	}
+	return [][]string{orig}
 }
 
 func padding(kind string, n int) []byte {
@@ -299,6 +337,21 @@ func runLoad(l loadSpec) (k intoto.Key, err error, panicked bool) {
 			panicked = true
 		}
 	}()
+	var touched [][]string
+	defer func() {
+		// detach the result from any array it may share with the touched lists before restoring them
+		if k.KeyIDHashAlgorithms != nil {
+			k.KeyIDHashAlgorithms = append([]string{}, k.KeyIDHashAlgorithms...)
+		}
+		for _, o := range touched {
+			if len(o) == 2 {
+				o[0], o[1] = "sha256", "sha512"
+			}
+		}
+	}()
+	for _, h := range l.History {
+		touched = append(touched, h.run()...)
+	}
 	if l.Reuse != nil {
 		if e := k.LoadKeyReaderDefaults(bytes.NewReader(l.Reuse)); e != nil {
 			panic("reuse load failed: " + e.Error())
@@ -737,9 +790,34 @@ type loadRecord struct {
 	Private          bool
 }
 
+// the same load (without its history) in a child process
+func freshProcess(l loadSpec) string {
+	l.History = nil
+	exe, err := os.Executable()
+	if err != nil {
+		panic(err)
+	}
+	cmd := exec.Command(exe, "childload", "-")
+	cmd.Stdin = bytes.NewReader(lib.MustJSON(l))
+	out, err := cmd.Output()
+	if err != nil {
+		panic("child process: " + err.Error())
+	}
+	return string(out)
+}
+
 func (g *gen) emit(klass string, l loadSpec, e expectation) {
 	k, err, pan := runLoad(l)
 	impl := showImpl(k, err, pan)
+	if len(l.History) > 0 {
+		if fresh := freshProcess(l); fresh != impl {
+			in := loadInput{Kind: "load", Load: l, Expect: e}
+			g.buf = append(g.buf, lib.Case{Klass: klass, Input: lib.MustJSON(in), Impl: impl,
+				Oracle:   "DEMANDED: the result of the same load in a fresh process: " + fresh,
+				CoqModel: coqModel(l)})
+			return
+		}
+	}
 	in := loadInput{Kind: "load", Load: l, Expect: e}
 	g.buf = append(g.buf, lib.Case{Klass: klass, Input: lib.MustJSON(in), Impl: impl, Oracle: oracleFor(impl, k, err, pan, e),
 		CoqModel: coqModel(l), Trivial: false})
@@ -1043,7 +1121,7 @@ func (g *gen) greyLoads(tier string) {
 		// an undecodable or foreign first block followed by a good one; text glued to the BEGIN line
 		bad := bytes.Replace(plain, []byte("\n"), []byte("\n!!"), 1)
 		g.emit("corrupt-then-valid", g.specFor(p, g.r.Pick(apis), append(bad, plain...)), expectation{Outcome: "any"})
-		g.emit("foreign-then-valid", g.specFor(p, g.r.Pick(apis), append(foreignBlocks()[g.r.Intn(3)].Text, plain...)), expectation{Outcome: "any"})
+		g.emit("foreign-then-valid", g.specFor(p, g.r.Pick(apis), append(foreignBlocks()[g.r.Intn(3)].Text, plain...)), expectation{Outcome: "err"})
 		g.emit("glued-leading-text", g.specFor(p, g.r.Pick(apis), append([]byte("xx"), plain...)), expectation{Outcome: "any"})
 		// loading into a Key object that already holds another key: every field must be replaced
 		// (prior content: alternately another pair's private key and another pair's certificate)
@@ -1068,6 +1146,107 @@ func indexOf(ps []pair, name string) int {
 		}
 	}
 	return 0
+}
+
+// Several blocks in one input: only the first block counts.  A first block with intact armor that
+// is not a usable key (encrypted key, damaged DER, CSR, EC PARAMETERS, unknown label, empty block)
+// is refused whatever follows it — a private key, a public key or a certificate of the same or of
+// another pair.
+func (g *gen) multiBlockLoads(tier string) {
+	ecParams := pemOf("EC PARAMETERS", mustASN1(asn1.ObjectIdentifier{1, 2, 840, 10045, 3, 1, 7}))
+	junk := make([]byte, 96)
+	rand.Read(junk)
+	for pi, p := range g.pairs {
+		fs := g.forms[p.Name]
+		if tier != "thorough" && strings.HasPrefix(p.Kind, "rsa") && p.Name != "rsa2048" {
+			continue
+		}
+		priv := fs[0]
+		if g.r.Bool() && fs[1].Private {
+			priv = fs[1]
+		}
+		damaged := append([]byte{}, priv.DER[:len(priv.DER)-1-g.r.Intn(3)]...)
+		wrongTag := append([]byte{}, fs[2].DER...)
+		wrongTag[0] = 0x31
+		firsts := []foreign{
+			{"encrypted-key", legacyEncrypted(priv)},
+			{"truncated-der", pemOf(priv.PemType, damaged)},
+			{"wrong-tag-der", pemOf(fs[2].PemType, wrongTag)},
+			{"csr", foreignBlocks()[0].Text},
+			{"ec-parameters", ecParams},
+			{"unknown-label", pemOf("IN-TOTO SOMETHING", junk)},
+			{"empty-block", []byte("-----BEGIN " + priv.PemType + "-----\n-----END " + priv.PemType + "-----\n")},
+			{"encrypted-pkcs8", foreignBlocks()[6].Text},
+		}
+		other := g.pairs[(pi+1+g.r.Intn(len(g.pairs)-1))%len(g.pairs)]
+		ofs := g.forms[other.Name]
+		seconds := []struct {
+			name string
+			f    form
+		}{
+			{"own-private", priv}, {"own-public", fs[len(fs)-3]}, {"own-certificate", fs[len(fs)-1]},
+			{"other-private", ofs[0]}, {"other-public", ofs[len(ofs)-3]}, {"other-certificate", ofs[len(ofs)-2]},
+		}
+		for _, fb := range firsts {
+			for _, sb := range seconds {
+				if tier != "thorough" && !g.r.Chance(1, 3) {
+					continue
+				}
+				text := append(append([]byte{}, fb.Text...), pemOf(sb.f.PemType, sb.f.DER)...)
+				for _, api := range apis {
+					if tier != "thorough" && !g.r.Chance(1, 2) {
+						continue
+					}
+					l := loadSpec{API: api, PEM: text}
+					if !strings.HasSuffix(api, "defaults") {
+						// the scheme and list the SECOND block's key would be loaded with
+						kt := p.keytype()
+						if strings.HasPrefix(sb.name, "other") {
+							kt = other.keytype()
+						}
+						l.Scheme, l.Algs = defaultScheme[kt], []string{"sha256", "sha512"}
+					}
+					g.emit("multi-block-"+fb.Name+"-then-"+sb.name, l, expectation{Outcome: "err"})
+				}
+			}
+		}
+	}
+}
+
+// Histories: a key loaded with the defaults, its hash algorithm list written in place by the
+// caller, then this or another key loaded with the defaults (or explicitly): the later load is
+// what it is in a fresh process.
+func (g *gen) historyLoads(tier string) {
+	muts := []string{"index-write", "sort-reverse", "json-unmarshal", "append-in-place", "none"}
+	for pi, p := range g.pairs {
+		fs := g.forms[p.Name]
+		if tier != "thorough" && strings.HasPrefix(p.Kind, "rsa") && p.Name != "rsa2048" {
+			continue
+		}
+		other := g.pairs[(pi+1+g.r.Intn(len(g.pairs)-1))%len(g.pairs)]
+		for _, mut := range muts {
+			first := fs[g.r.Intn(len(fs))]
+			hist := []histStep{{PEM: pemOf(first.PemType, first.DER), Mut: mut}}
+			if g.r.Chance(1, 3) {
+				of := g.forms[other.Name][2]
+				hist = append(hist, histStep{PEM: pemOf(of.PemType, of.DER), Mut: muts[g.r.Intn(4)]})
+			}
+			// afterwards: the same key again, another form of the pair, another pair
+			targets := []struct {
+				p pair
+				f form
+			}{{p, first}, {p, fs[g.r.Intn(len(fs))]}, {other, g.forms[other.Name][g.r.Intn(len(g.forms[other.Name]))]}}
+			for ti, t := range targets {
+				api := apis[(ti+pi)%2] // the two default loaders
+				if g.r.Chance(1, 4) {
+					api = apis[2+g.r.Intn(2)] // explicit arguments are validated against the supported list
+				}
+				l := g.specFor(t.p, api, pemOf(t.f.PemType, t.f.DER))
+				l.History = hist
+				g.emit("history-"+mut, l, g.expectOK(t.p, t.f, "history-"+mut, l))
+			}
+		}
+	}
 }
 
 type foreign struct {
@@ -1519,11 +1698,24 @@ func main() {
 		g.validLoads(tier)
 		g.sizedLoads(tier)
 		g.bigCertLoads(tier)
+		g.multiBlockLoads(tier)
 		g.greyLoads(tier)
 		g.refusedLoads(tier)
 		g.relations()
+		g.historyLoads(tier)
 		g.flush()
 		w.Close()
+	case "childload":
+		b, err := io.ReadAll(os.Stdin)
+		if err != nil {
+			panic(err)
+		}
+		var l loadSpec
+		if err := json.Unmarshal(b, &l); err != nil {
+			panic(err)
+		}
+		k, e, pan := runLoad(l)
+		fmt.Print(showImpl(k, e, pan))
 	case "replay":
 		b, err := os.ReadFile(os.Args[2])
 		if err != nil {
